@@ -25,6 +25,20 @@ FIRST_MISSED = {"C09-A": "no obligation with an explicit random_state + resample
     "C20-B": "d=2 affine invariance with symbolic samples is beyond nlsat; concrete samples + symbolic ill-conditioned map added (round 3)",
     "C20-2B": "same",
     "C18-A": "running with pool>=2 and checkpoints is not claimed by C18; reported by C08 (save-configurations)",
+    "C03-4A": "one-step obligations had K=1 only; with an empty lower-numbered mode the walker's mode index and its rank among populated modes differ",
+    "C03-4B": "exact log-domain algebra cannot see exp(d) underflowing before the power beta is taken; range abstraction of exp/pow added",
+    "C04-4A": "np.log1p was not modelled on symbolic values (harness error)",
+    "C04-4B": "no history with unequal batches whose mean size equals the first batch size (2,1,3)",
+    "C07-4A": "first evaluation was confounded by the warm-up repair in the repository (draw budget); then: concrete replay never produced exactly-zero weights",
+    "C08-4B": "the file-system double treated write() as reaching the OS at once; user-space buffering (flush/close) was not modelled",
+    "C09-4A": "no sampler run with a zero-likelihood region (the replacement draw of the warm-up), and no same-seed-twice replay for the entropy clause",
+    "C10-4B": "first evaluation confounded by the warm-up repair; final evidence at the wrong temperature is C12's clause and is reported there",
+    "C11-4B": "the kernel was never run with zero-likelihood proposals (-inf arithmetic was missing in the exact-real scalar)",
+    "C12-4B": "the replays recomputed the reference with the function under test; independent MIS reference added",
+    "C14-4A": "the pipeline ran at beta = 0.5 only; the smallest positive temperature 2^-14 added",
+    "C17-4B": "import was exercised through update_from_dict only, not through the from_dict constructor",
+    "C18-4B": "running is not claimed by C18; the vectorize+pool combination is reported by C13",
+    "C19-4A": "linalg.pinv was not modelled (harness error); then: needs scalings 1e-6 and 1e6 on different coordinates (cond 1e24)",
     "C10-2B": "temperatures were on a rational grid; arbitrary real temperatures added (uninterpreted exp(beta*l), Ackermann congruence)",
     "C19-A": "budget exhausted; replay compared at scale 0.1 only (and with numpy's absolute tolerance)", "C19-B": "configured fallback equalled the class default in the harness"}
 rows = []
